@@ -74,6 +74,9 @@ pub struct Stepper {
     pub probes: Probes,
     /// more than 20000 output events came out of one tick (see `drain`)
     pub flood: bool,
+    /// "late loop" schedule: when the loop is not blocked, one iteration covers this many
+    /// milliseconds (handle_time_ticks then calls tick_ms(n) once). 1 = an iteration per ms.
+    pub batch: u64,
     pub tick_err: Option<String>,
     sleep_base: u64,
     custom_dropped_base: u64,
@@ -138,6 +141,7 @@ impl Stepper {
             trace: Trace::default(),
             probes: Probes::default(),
             flood: false,
+            batch: 1,
             tick_err: None,
             sleep_base: kanata_verif_rt::inactive_slept_ns(),
             custom_dropped_base: kanata_keyberon::layout::VERIF_CUSTOM_EVENTS_DROPPED.load(std::sync::atomic::Ordering::Relaxed),
@@ -337,9 +341,10 @@ impl Stepper {
                 self.blocked = true;
                 return;
             }
-            self.one_tick(1);
-            self.prev_elapsed = 1;
-            i += 1;
+            let k = self.batch.max(1).min(n - i);
+            self.one_tick(k as u128);
+            self.prev_elapsed = k as u16;
+            i += k;
         }
     }
 
